@@ -210,6 +210,12 @@ func main() {
 			}
 			proc := wf.NewProc(p.Name, pat)
 			for _, o := range p.Outs {
+				// an out-port the command pattern does not mention (the tool chooses its own file name, the path is declared with SetOut only)
+				if !strings.Contains(pat, "{o:"+o) && !strings.Contains(pat, "{os:"+o) {
+					proc.InitOutPort(proc, o)
+				}
+			}
+			for _, o := range p.Outs {
 				if pat, ok := p.OutPaths[o]; ok {
 					proc.SetOut(o, pat)
 				} else {
